@@ -2,7 +2,7 @@
 From Coq Require Import List ZArith.
 Import ListNotations.
 From Exmex.Model Require Import Base EvalBinary Lexer Flat Deep.
-From Exmex.Proofs Require Import Precond.
+From Exmex.Proofs Require Import Precond CommaRewrite LexSpaced.
 
 (* All statements are for EVERY operator table, data type and token list (not for a catalogue of damages).
    A token list is what the tokenizer hands to both parsers; the text-level statements for blank texts and
@@ -35,6 +35,33 @@ Theorem C07_operand_count : forall (D : Type) (C : carrier D) (tb : optable) (fb
   make_expression tb fb text ts vars = Ok fx -> length (fnodes fx) = S (length (fops fx)).
 Proof. intros D C. exact (@flat_count D). Qed.
 
+(* TEXT level.  A blank text (spaces only) has no tokens, so every parser rejects it. *)
+Theorem C07_blank_text : forall (D : Type) (C : carrier D) (tb : optable) (is_literal : str -> option nat) (s : str),
+  forallb (N.eqb SPACE) s = true ->
+  tokenize C tb is_literal s = Ok [] /\
+  (forall fb, is_err (parse_wo_compile C tb fb is_literal s)) /\ (forall fb, is_err (parse C tb fb is_literal s)) /\ is_err (parse_deep C tb is_literal s).
+Proof.
+  intros D C tb is_literal s H. pose proof (tokenize_blank C tb is_literal s H) as Ht. split; [exact Ht|].
+  destruct (C07_empty_rejected D C tb s) as [Hf Hd].
+  split; [intros fb; unfold parse_wo_compile; rewrite Ht; cbn [bind]; exact (Hf fb)|].
+  split; [|unfold parse_deep; rewrite Ht; cbn [bind]; exact Hd].
+  intros fb. unfold parse, parse_wo_compile. rewrite Ht. cbn [bind]. destruct (Hf fb) as [e He]. rewrite He. exists e. reflexivity.
+Qed.
+
+(* A character at which no token starts (not a space, parenthesis, comma or opening brace; no literal, no operator name,
+   no identifier begins there), after any prefix of readable tokens in the canonical spaced rendering: the tokenizer
+   reports an error, so every parser rejects the text. *)
+Theorem C07_unknown_char : forall (D : Type) (C : carrier D) (tb : optable) (is_literal : str -> option nat) (ts : list (token D)) (s : str),
+  Forall (lexable C tb is_literal) ts -> unknown_start tb is_literal s ->
+  tokenize C tb is_literal (stext C tb ts ++ s) = Err E_TOKENIZE /\
+  (forall fb, is_err (parse_wo_compile C tb fb is_literal (stext C tb ts ++ s))) /\
+  (forall fb, is_err (parse C tb fb is_literal (stext C tb ts ++ s))) /\ is_err (parse_deep C tb is_literal (stext C tb ts ++ s)).
+Proof.
+  intros D C tb is_literal ts s HF Hs. pose proof (tokenize_unknown_char C tb is_literal ts s HF Hs) as Ht. split; [exact Ht|].
+  split; [intros fb; unfold parse_wo_compile; rewrite Ht; exists E_TOKENIZE; reflexivity|].
+  split; [intros fb; unfold parse, parse_wo_compile; rewrite Ht; exists E_TOKENIZE; reflexivity|unfold parse_deep; rewrite Ht; exists E_TOKENIZE; reflexivity].
+Qed.
+
 (* non-vacuity: two adjacent operands pass the pair rules and are rejected by the count *)
 Example C07_adjacent_operands :
   exists e, parse_tokens_wo (D:=term) [] true [] [TNum (Lit [49%N]); TNum (Lit [50%N])] = Err e.
@@ -44,3 +71,5 @@ Print Assumptions C07_unbalanced_rejected.
 Print Assumptions C07_trailing_operator_rejected.
 Print Assumptions C07_bad_pair_rejected.
 Print Assumptions C07_operand_count.
+Print Assumptions C07_blank_text.
+Print Assumptions C07_unknown_char.
